@@ -175,7 +175,7 @@ pub fn run(run: &Run) {
     );
     let subs = subs();
     run_regressions(run, &subs);
-    let n = run.tier.pick(300_000, 4_000_000);
+    let n = run.tier.pick(300_000, 15_000_000);
     run.random("filters", n, 300, &*find_sub(&subs, "filters").unwrap().f);
     run.random("values", n / 3, 150, &*find_sub(&subs, "values").unwrap().f);
 }
